@@ -69,7 +69,7 @@ def check_case(case, ctx):
     anymatch = False
     names = dict(rx.groupindex)
     unnamed_before_named = any(idx > pos for pos, (n, idx) in enumerate(sorted(names.items(), key=lambda x: x[1]), 1))
-    for t in pat.subject_texts(case['tree'], case['tseed'], case.get('xt', ()))[:8]:
+    for t in pat.subject_texts(case['tree'], case['tseed'], case.get('xt', ()), big=case.get('big', 0))[:10]:
         caps, caps_pos, named, named_pos = expected(rx, t, ie, rel)
         ms = list(rx.finditer(t))
         if ms and rx.groups:
@@ -111,6 +111,21 @@ def check_case(case, ctx):
                                        'relative_to_match': rel} if nontrivial else None)
 
 
+def _many_groups(t):
+    """9-120 capturing groups in one pattern (two- and three-digit group numbers), a pseudo-random third of them named,
+    some optional: (a)(?P<g3>b)?(c)..."""
+    import random
+    n, seed = t
+    rng = random.Random(seed)
+    items = []
+    for i in range(n):
+        c = ['cap', 'class' if i % 2 else 'method', ['lit', 'abcdefghij'[i % 10], bool(i % 3)], f'g{i}' if rng.random() < 0.33 else None]
+        if rng.random() < 0.2:
+            c = ['q', 'opt', 'class', c, 0, None, True]
+        items.append(c)
+    return ['cat', 'class', items]
+
+
 def layout_strategy():
     """Group layouts built on purpose: 2-5 capturing groups in a row, each named or unnamed (any order), optionally
     optional / empty-capable / inside an alternation / nested in another capture, separated by small literals."""
@@ -125,12 +140,14 @@ def layout_strategy():
     opt = st.tuples(st.one_of(cap, nested), st.booleans()).map(lambda t: ['q', 'opt', 'class', t[0], 0, None, t[1]])
     alt = st.tuples(cap, cap).map(lambda t: ['alt', 'class', [t[0], t[1]]])
     item = st.one_of(cap, cap, cap, nested, opt, opt, alt, atom)
-    return st.lists(item, min_size=2, max_size=5).map(lambda xs: dsl.uniquify_names(['cat', 'class', xs]))
+    many = st.tuples(st.sampled_from([9, 10, 11, 12, 20, 33, 64, 99, 100, 101, 120]), st.integers(0, 2 ** 16)).map(_many_groups)
+    return st.one_of(st.lists(item, min_size=2, max_size=5).map(lambda xs: dsl.uniquify_names(['cat', 'class', xs])),
+                     st.lists(item, min_size=2, max_size=5).map(lambda xs: dsl.uniquify_names(['cat', 'class', xs])), many)
 
 
 def strategy(spec, ctx):
     if ctx.shard_index % 2 == 0:
-        return st.fixed_dictionaries({'tree': layout_strategy(), 'tseed': st.integers(0, 2 ** 16), 'state': st.sampled_from(pat.STATES),
+        return st.fixed_dictionaries({'tree': layout_strategy(), 'tseed': st.integers(0, 2 ** 16), 'state': st.sampled_from(pat.STATES), 'big': st.sampled_from([0, 0, 0, 40, 400]),
                                       'include_empty': st.booleans(), 'relative': st.booleans()})
     feats = ['cap', 'cap', 'cap', 'cat', 'alt', 'q', 'grp', 'cls', 'strarg', 'look', 'enc']
     if ctx.shard_index % 3 == 1:
